@@ -34,6 +34,25 @@ func driveMpack(c *Ctx) error {
 						ev["back"] = resOf(back, berr, bp, bmsg)
 						if !bp && berr == nil {
 							ev["eq"] = tri(func() cty.Value { return v.Equals(back) })
+							if !v.IsKnown() && !v.IsMarked() && v.Type() == cty.Number && back.Type() == cty.Number && !back.IsMarked() {
+								// does the decoded range still admit the original's own inclusive bounds?
+								// (observed through the decoded value's Range().Includes; judged by the trace spec)
+								bi := []any{}
+								r := v.Range()
+								lo, loInc := r.NumberLowerBound()
+								hi, hiInc := r.NumberUpperBound()
+								for _, bd := range []struct {
+									side string
+									n    cty.Value
+									inc  bool
+								}{{"lo", lo, loInc}, {"hi", hi, hiInc}} {
+									if bd.n.IsKnown() && !bd.n.AsBigFloat().IsInf() {
+										n := bd.n
+										bi = append(bi, J{"side": bd.side, "inc": bd.inc, "ans": tri(func() cty.Value { return back.Range().Includes(n) })})
+									}
+								}
+								ev["bi"] = bi
+							}
 						}
 					}
 					if _, ok := ev["back"]; !ok {
